@@ -69,7 +69,9 @@ def run(ctx):
         "everything inside the Cython-generated wrapper C and numpy: sanitizer runs only",
         "binary64 instance of the float-dependent index walks (c_var2h, c_coord2cell, c_delineate_boundary): "
         "theorems are over the reals / any arithmetic with exact integer embedding; binary64 by correspondence"]
-    proved = cm.prove(ctx, extra_targets=["Model/SafetyCases.vo"])
+    # theorems incl. safe execution of the regenerated MiniC program; tie of the translator and the
+    # interpreter with every compiled kernel (None = all kernels of harness/kernels_tie.py)
+    proved = cm.prove_with_kernels(ctx, None, extra_targets=["Model/SafetyCases.vo"])
     rng = ctx.rng
     t0 = time.time()
     klib = nat.build_klib_san()
